@@ -1553,6 +1553,20 @@ func (x *Exec) safety(st *State, fr *Frame, in ssa.Instruction, kind, goal strin
 	if top != nil && !top.Safety {
 		return
 	}
+	if top != nil && top.Opts["safety.only"] != "" {
+		// opt safety.only=kind|kind: only these kinds of automatic safety obligations are generated
+		// (the contract says which; the others are stated as not claimed in the evidence notes)
+		found := false
+		for _, k := range strings.Split(top.Opts["safety.only"], "|") {
+			if strings.TrimSpace(k) == kind {
+				found = true
+			}
+		}
+		if !found {
+			x.note("safety obligations of kind " + kind + " not generated (opt safety.only=" + top.Opts["safety.only"] + ")")
+			return
+		}
+	}
 	name := x.safetyName(fr, in, kind)
 	props := []string(nil)
 	if x.fc != nil {
